@@ -94,13 +94,14 @@ def scanStep (ws : List Nat) (st : Run × Run) (i : Nat) : Run × Run :=
     ((if best.base = -1 ∨ cur.len > best.len then cur else best), ⟨-1, cur.len⟩)
   else (best, cur)
 
+/-- lines 101-106: account for a run that reaches the end; drop runs shorter than 2 -/
+def finishScan (st : Run × Run) : Run :=
+  let best := if st.2.base ≠ -1 then (if st.1.base = -1 ∨ st.2.len > st.1.len then st.2 else st.1) else st.1
+  if best.base ≠ -1 ∧ best.len < 2 then ⟨-1, best.len⟩ else best
+
 /-- lines 83-106 -/
 def bestRun (ws : List Nat) : Run :=
-  let st := (List.range 8).foldl (scanStep ws) (⟨-1, 0⟩, ⟨-1, 0⟩)
-  let best := st.1
-  let cur := st.2
-  let best := if cur.base ≠ -1 then (if best.base = -1 ∨ cur.len > best.len then cur else best) else best
-  if best.base ≠ -1 ∧ best.len < 2 then ⟨-1, best.len⟩ else best
+  finishScan ((List.range 8).foldl (scanStep ws) (⟨-1, 0⟩, ⟨-1, 0⟩))
 
 /-- lines 121-122: `if (i != 0) *tp++ = ':'` -/
 def colon (i : Nat) (tp : List Nat) : List Nat := if i ≠ 0 then tp ++ [58] else tp
